@@ -12,6 +12,23 @@ type Def struct {
 	Idx  int      // result index when Rhs is a multi-value call
 	N    int
 	Stmt ast.Node
+	// Superseded (inline mode): the statement is a call to a spliced helper; the
+	// value it assigns is given precisely by the synthesized assignments of the
+	// helper's returns, which are listed as well.  Predicates that ask "what is
+	// this value" use LiveDefs; analyses that ask "what may influence this value"
+	// keep the call.
+	Superseded bool
+}
+
+// LiveDefs drops the superseded definitions.
+func LiveDefs(defs []Def) []Def {
+	out := defs[:0:0]
+	for _, d := range defs {
+		if !d.Superseded {
+			out = append(out, d)
+		}
+	}
+	return out
 }
 
 // DefsOf lists the assignments to a local variable in the function (including
@@ -22,7 +39,12 @@ func (c *Ctx) DefsOf(o types.Object) []Def {
 	for root.Encl != nil {
 		root = root.Encl
 	}
-	ast.Inspect(root.Body(), func(x ast.Node) bool {
+	inl := root.inlineOn()
+	if inl {
+		root.Graph()
+	}
+	visit := func(x ast.Node) bool {
+		sup := inl && root.replaced[x]
 		switch s := x.(type) {
 		case *ast.AssignStmt:
 			for i, l := range s.Lhs {
@@ -30,10 +52,13 @@ func (c *Ctx) DefsOf(o types.Object) []Def {
 				if !ok || c.Info.ObjectOf(id) != o {
 					continue
 				}
+				if inl && root.retAssign[s] && failureZero(c.Info, s, i) {
+					continue
+				}
 				if len(s.Rhs) == len(s.Lhs) {
-					out = append(out, Def{Rhs: s.Rhs[i], Idx: 0, N: 1, Stmt: s})
+					out = append(out, Def{Rhs: s.Rhs[i], Idx: 0, N: 1, Stmt: s, Superseded: sup})
 				} else if len(s.Rhs) == 1 {
-					out = append(out, Def{Rhs: s.Rhs[0], Idx: i, N: len(s.Lhs), Stmt: s})
+					out = append(out, Def{Rhs: s.Rhs[0], Idx: i, N: len(s.Lhs), Stmt: s, Superseded: sup})
 				}
 			}
 		case *ast.ValueSpec:
@@ -61,7 +86,13 @@ func (c *Ctx) DefsOf(o types.Object) []Def {
 			}
 		}
 		return true
-	})
+	}
+	ast.Inspect(root.Body(), visit)
+	if inl {
+		for _, extra := range root.inlined {
+			ast.Inspect(extra, visit)
+		}
+	}
 	return out
 }
 
@@ -70,8 +101,9 @@ func (c *Ctx) DefsOf(o types.Object) []Def {
 // variable all of whose definitions are that result.  idx -1 = last result.
 func FromCall(idx int, callees ...string) ExprPred {
 	ns := Names(callees...)
-	return func(c *Ctx, e ast.Expr) bool {
-		e = ast.Unparen(e)
+	var rec func(c *Ctx, e ast.Expr, depth int) bool
+	rec = func(c *Ctx, e ast.Expr, depth int) bool {
+		e = c.Through(e)
 		if call, ok := e.(*ast.CallExpr); ok {
 			return ns.Has(Callee(c.Info, call))
 		}
@@ -83,13 +115,20 @@ func FromCall(idx int, callees ...string) ExprPred {
 		if o == nil {
 			return false
 		}
-		defs := c.DefsOf(o)
+		defs := LiveDefs(c.DefsOf(o))
 		if len(defs) == 0 {
 			return false
 		}
 		for _, d := range defs {
+			if d.Rhs == nil {
+				return false
+			}
 			call, ok := ast.Unparen(d.Rhs).(*ast.CallExpr)
-			if d.Rhs == nil || !ok || !ns.Has(Callee(c.Info, call)) {
+			if !ok || !ns.Has(Callee(c.Info, call)) {
+				// a plain copy of a variable that is itself the call result
+				if src, isId := ast.Unparen(d.Rhs).(*ast.Ident); isId && d.N == 1 && depth > 0 && c.Info.ObjectOf(src) != o && rec(c, src, depth-1) {
+					continue
+				}
 				return false
 			}
 			want := idx
@@ -102,13 +141,54 @@ func FromCall(idx int, callees ...string) ExprPred {
 		}
 		return true
 	}
+	return func(c *Ctx, e ast.Expr) bool { return rec(c, e, 3) }
+}
+
+// Through follows, in inline mode, an identifier that names a parameter or the
+// receiver of a spliced helper to the expression bound to it at its single call
+// site (and strips parentheses).
+func (c *Ctx) Through(e ast.Expr) ast.Expr {
+	e = ast.Unparen(e)
+	root := c.F
+	for root.Encl != nil {
+		root = root.Encl
+	}
+	if !root.inlineOn() {
+		return e
+	}
+	root.Graph()
+	for i := 0; i < 4; i++ {
+		id, ok := e.(*ast.Ident)
+		if !ok {
+			return e
+		}
+		o := c.Info.ObjectOf(id)
+		if o == nil {
+			return e
+		}
+		var bound ast.Expr
+		n := 0
+		for _, b := range root.binds {
+			for j, l := range b.Lhs {
+				if lid, ok := l.(*ast.Ident); ok && c.Info.Defs[lid] == o {
+					bound = b.Rhs[j]
+					n++
+				}
+			}
+		}
+		if n != 1 {
+			return e
+		}
+		e = ast.Unparen(bound)
+	}
+	return e
 }
 
 // IsObj holds for an identifier/selector denoting exactly the named object
 // ("param:N", "recv", qualified field or variable).
 func IsObj(q string) ExprPred {
 	return func(c *Ctx, e ast.Expr) bool {
-		e = ast.Unparen(e)
+		e = c.Through(e)
 		switch x := e.(type) {
 		case *ast.Ident:
 			return mentionsQual(c, x, q)
@@ -330,45 +410,83 @@ func MayBeFromCall(idx int, callees ...string) ExprPred {
 }
 
 // DerivedFrom holds when the expression mentions q directly or through local
-// variables all of whose definitions mention q (two levels).
+// variables all of whose definitions mention q (two levels); the variables of a
+// range statement are defined by the ranged-over expression.
 func DerivedFrom(q string) ExprPred {
-	var rec func(c *Ctx, e ast.Node, depth int) bool
-	rec = func(c *Ctx, e ast.Node, depth int) bool {
-		if mentionsQual(c, e, q) {
+	return func(c *Ctx, e ast.Expr) bool { return derivedQual(c, e, q, 2) }
+}
+
+func derivedQual(c *Ctx, e ast.Node, q string, depth int) bool {
+	if mentionsQual(c, e, q) {
+		return true
+	}
+	if depth == 0 {
+		return false
+	}
+	found := false
+	InspectNode(e, func(x ast.Node) bool {
+		id, ok := x.(*ast.Ident)
+		if !ok || found {
 			return true
 		}
-		if depth == 0 {
-			return false
+		v, ok := c.Info.Uses[id].(*types.Var)
+		if !ok || v.IsField() || v.Pkg() == nil || v.Parent() == v.Pkg().Scope() {
+			return true
 		}
-		found := false
-		InspectNode(e, func(x ast.Node) bool {
-			id, ok := x.(*ast.Ident)
-			if !ok || found {
-				return true
+		defs := LiveDefs(c.DefsOf(v))
+		if len(defs) == 0 {
+			return true
+		}
+		all, n := true, 0
+		for _, d := range defs {
+			if _, isDecl := d.Stmt.(*ast.ValueSpec); isDecl && d.Rhs == nil {
+				continue // `var x T` zero-value declaration, assigned later
 			}
-			v, ok := c.Info.Uses[id].(*types.Var)
-			if !ok || v.IsField() || v.Pkg() == nil || v.Parent() == v.Pkg().Scope() {
-				return true
-			}
-			defs := c.DefsOf(v)
-			if len(defs) == 0 {
-				return true
-			}
-			all := true
-			for _, d := range defs {
-				if _, isDecl := d.Stmt.(*ast.ValueSpec); isDecl && d.Rhs == nil {
-					continue // `var x T` zero-value declaration, assigned later
-				}
-				if d.Rhs == nil || !rec(c, d.Rhs, depth-1) {
+			n++
+			if rs, isRange := d.Stmt.(*ast.RangeStmt); isRange && d.Rhs == nil {
+				if !derivedQual(c, rs.X, q, depth-1) {
 					all = false
 				}
+				continue
 			}
-			if all {
-				found = true
+			if d.Rhs == nil || !derivedQual(c, d.Rhs, q, depth-1) {
+				all = false
 			}
-			return true
-		})
-		return found
+		}
+		if all && n > 0 {
+			found = true
+		}
+		return true
+	})
+	return found
+}
+
+// Origin follows an identifier through plain copies (`a := b`, a defined once)
+// and, in inline mode, through the parameter bindings of spliced helpers, to
+// the expression the value comes from.
+func Origin(c *Ctx, e ast.Expr) ast.Expr {
+	for i := 0; i < 6; i++ {
+		e = c.Through(e)
+		id, ok := e.(*ast.Ident)
+		if !ok {
+			return e
+		}
+		o, ok := c.Info.ObjectOf(id).(*types.Var)
+		if !ok || o.IsField() {
+			return e
+		}
+		defs := LiveDefs(c.DefsOf(o))
+		if len(defs) != 1 || defs[0].N != 1 || defs[0].Rhs == nil {
+			return e
+		}
+		src, ok := ast.Unparen(defs[0].Rhs).(*ast.Ident)
+		if !ok || c.Info.ObjectOf(src) == o {
+			return e
+		}
+		if _, isVar := c.Info.ObjectOf(src).(*types.Var); !isVar {
+			return e
+		}
+		e = src
 	}
-	return func(c *Ctx, e ast.Expr) bool { return rec(c, e, 2) }
+	return e
 }
